@@ -597,6 +597,21 @@ void vp_ghost_check_overdue_sleepers(void) {
   }
 }
 
+// a fiber whose function has returned (finishing) but which is still executing, with not a single event from it or anybody else
+// between two looks: it spins in a wait that never switches. Returns the fiber and its switch count for the caller to compare.
+const void* vp_ghost_finished_but_running(uint64_t* sw_out) {
+  uint32_t k;
+  for (k = 0; k < GSIZE; ++k) {
+    vp_gfiber_t* g = &g_tab[k];
+    const uintptr_t key = atomic_load_explicit(&g->key, memory_order_acquire);
+    if (!key || atomic_load(&g->destroyed) || !atomic_load(&g->finishing) || atomic_load(&g->is_thread)) continue;
+    if (atomic_load(&g->running_on) < 0) continue;
+    if (sw_out) *sw_out = atomic_load(&g->switches_in) * 1000003ULL + atomic_load(&g_epoch);
+    return (const void*)key;
+  }
+  return NULL;
+}
+
 int vp_ghost_quiescent(void) {
   const uint64_t e = atomic_load(&g_epoch);
   int i, mgrs = 0;
